@@ -395,8 +395,14 @@ def extract(repo):
     if not f['reset_saturates'] and not re.search(r'\.(unwrap|expect)\(', body):
         raise AnchorLost('reset code conversion')
     body, spans['poll_finish'] = src.fn_body('poll_finish', after=m.start())
-    if not re.search(r'self\s*\.stream\s*\.finish\(\)\s*\.map_err\(\s*\|e\|\s*StreamErrorIncoming::Unknown\(', body):
-        raise AnchorLost('poll_finish body')
+    fin = 'Poll::Ready(self.stream.finish().map_err(|e|StreamErrorIncoming::Unknown(Box::new(e))),)'
+    drain = 'ifself.writing.is_some(){ready!(self.poll_ready(cx))?;}'
+    if squash(body) == drain + fin:
+        f['poll_finish_drains'] = True       # a pending write is written out (or its error returned) before finish()
+    elif squash(body) == fin:
+        f['poll_finish_drains'] = False
+    else:
+        raise AnchorLost('poll_finish is not the known body: ' + squash(body)[:160])
     return f, spans
 
 
@@ -460,6 +466,7 @@ def render(f):
     L.append('Definition poll_ready_advances_by_written : bool := %s.' % b(f['poll_ready_advances_by_written']))
     L.append('Definition poll_ready_clears_writing : bool := %s.' % b(f['poll_ready_clears_writing']))
     L.append('Definition reset_saturates : bool := %s.' % b(f['reset_saturates']))
+    L.append('Definition poll_finish_drains : bool := %s.' % b(f['poll_finish_drains']))
     return '\n'.join(L) + '\n'
 
 
